@@ -231,7 +231,7 @@ def install_loggers(api, current, stubs=(), choices=(), keep_real=False):
                     spec._GHOST["log"].append(call_spec(_c.log_entry, dict(ba.arguments)))
                 except Exception as e:  # noqa
                     spec._GHOST["log"].append(("log-error", repr(e)))
-            if _c.proof == "table" and not keep_real:
+            if _c.proof == "table" and not (keep_real and (_c.native_real or keep_real == "all")):
                 # an ASSUMED summary: the callee is replaced by the value the counterexample chose
                 if _c.native_effect is not None:
                     ba = inspect.signature(_orig).bind(*a, **kw)
@@ -264,8 +264,61 @@ def call_spec(fn, ns):
 
 
 def main():
-    import copy
+    if len(sys.argv) > 2 and sys.argv[1] == "--batch":
+        return batch(sys.argv[2])
     w = json.load(open(sys.argv[1]))
+    run_one(w)
+
+
+def batch(path):
+    """several witnesses of one run: the contracts are imported once, every witness is replayed in a forked
+    child of this process (isolation of patched classes / registries, hard time limit), one JSON line each"""
+    import select
+    import signal
+    import time
+    ws = json.load(open(path))
+    from pyvc import driver
+    driver.load_contracts()
+    for w in ws:
+        r, wfd = os.pipe()
+        sys.stdout.flush()
+        pid = os.fork()
+        if pid == 0:
+            try:
+                os.close(r)
+                os.dup2(wfd, 1)
+                sys.stdout = os.fdopen(1, "w", closefd=False)
+                run_one(w)
+                sys.stdout.flush()
+            finally:
+                os._exit(0)
+        os.close(wfd)
+        buf, deadline = b"", time.time() + 45
+        while time.time() < deadline:
+            ready, _, _ = select.select([r], [], [], max(0.0, deadline - time.time()))
+            if not ready:
+                break
+            chunk = os.read(r, 65536)
+            if not chunk:
+                break
+            buf += chunk
+        os.close(r)
+        try:
+            os.kill(pid, signal.SIGKILL)
+        except OSError:
+            pass
+        try:
+            os.waitpid(pid, 0)
+        except OSError:
+            pass
+        lines = [l for l in buf.decode("utf-8", "replace").splitlines() if l.startswith("{")]
+        print(lines[-1] if lines else json.dumps({"outcome": "error", "confirmed": None,
+                                                  "detail": "no result from the replay child"}))
+    sys.stdout.flush()
+
+
+def run_one(w):
+    import copy
     out = {"obligation": w.get("obligation"), "outcome": None, "confirmed": None}
     try:
         from pyvc import driver, verify
@@ -281,7 +334,8 @@ def main():
             setattr(owner, attr, val)
             ns["state_" + attr] = val
         try:
-            install_loggers(api, c, w.get("stubs", ()), w.get("choices", ()))
+            install_loggers(api, c, w.get("stubs", ()), w.get("choices", ()),
+                            keep_real=str(w.get("obligation", "")).endswith("/sample"))
         except Exception:  # noqa   (wrapping is an aid to the oracle, never a reason for a replay to fail)
             out["wrap_error"] = traceback.format_exc()[-300:]
         _HANDLER_CHOICES[:] = [list(x) for x in w.get("handler_outcomes", [])]
@@ -309,12 +363,24 @@ def main():
                 box["exc"] = e
         th = threading.Thread(target=run, daemon=True)
         th.start()
-        th.join(6 if w["obligation"].endswith("blocked-only-when") else 20)
+        th.join(6 if (w["obligation"].endswith("blocked-only-when") or
+                      (w["obligation"].endswith("/sample") and c.when_blocked is not None)) else 20)
         if th.is_alive():
             out["outcome"] = "hang"
             out["detail"] = "real function still running after 20 s"
             name = w["obligation"]
             out["confirmed"] = True if ("variant" in name or "never-blocks" in name or "post" in name) else None
+            if name.endswith("/sample"):
+                if c.when_blocked is None:
+                    out["confirmed"] = True
+                    out["detail"] = "real function still running after 20 s on a sampled input (no waiting allowed)"
+                else:
+                    try:
+                        ok = bool(call_spec(c.when_blocked, dict(ns, old=old, where="(native: still waiting)")))
+                        out["confirmed"] = not ok
+                        out["detail"] = "real call is waiting; when_blocked evaluated natively -> %r" % ok
+                    except Exception as e:  # noqa
+                        out["confirmed"] = None
             if name.endswith("blocked-only-when") and c.when_blocked is not None:
                 try:
                     ok = bool(call_spec(c.when_blocked, dict(ns, old=old, where="(native: still waiting)")))
@@ -332,6 +398,34 @@ def main():
         name = w["obligation"]
         kind = name.rsplit("/", 1)[-1]
         from pyvc import spec as _spec
+        if kind == "sample":
+            # bounded companion: EVERY clause of the contract on this concrete input
+            bad = []
+            if "exc" in box:
+                e = box["exc"]
+                out["outcome"] = "raise"
+                out["exc"] = "%s%r" % (type(e).__name__, e.args)
+                if c.exceptional is None:
+                    bad.append("no exception allowed, real code raised %s" % type(e).__name__)
+                else:
+                    try:
+                        if not call_spec(c.exceptional, dict(ns, exc=e, old=old)):
+                            bad.append("exceptional clause false for %s%r" % (type(e).__name__, e.args))
+                    except BaseException as e2:  # noqa
+                        bad.append("exceptional clause raised %s" % type(e2).__name__)
+            else:
+                out["outcome"] = "ret"
+                out["value"] = repr(box.get("ret"))[:200]
+                for nm, f in c.ensures.items():
+                    try:
+                        if not call_spec(f, dict(ns, result=box.get("ret"), old=old)):
+                            bad.append("clause `%s` false" % nm)
+                    except BaseException as e2:  # noqa
+                        bad.append("clause `%s` raised %s" % (nm, type(e2).__name__))
+            out["confirmed"] = bool(bad)
+            out["detail"] = "; ".join(bad)[:600] if bad else "all clauses hold on the real result"
+            print(json.dumps(out))
+            return
         if kind.startswith("pre@"):
             failed = _spec._GHOST.get("pre_failed", [])
             out["outcome"] = "raise" if "exc" in box else "ret"
